@@ -7,6 +7,7 @@ import (
 	"io"
 	"math"
 	"net/http"
+	"net/http/httptest"
 	"os"
 	"strings"
 	"testing"
@@ -19,6 +20,7 @@ import (
 	"metacontroller/pkg/logging"
 
 	"github.com/go-logr/logr"
+	metav1 "k8s.io/apimachinery/pkg/apis/meta/v1"
 	"k8s.io/apimachinery/pkg/apis/meta/v1/unstructured"
 )
 
@@ -508,5 +510,87 @@ func TestVerifC19ExpireInFlight(t *testing.T) {
 			}
 		}
 		return nil
+	})
+}
+
+// ---- part 3: the configured timeout bounds the whole call (real HTTP over loopback) --------
+
+var c19TimeoutSeq int
+
+func TestVerifC19Timeouts(t *testing.T) {
+	vs.RunExhaustive(t, "C19", 10_000, func(c *vs.Case) error {
+		stall := c.PickStr("none", "before-headers", "after-headers", "mid-body")
+		etag := c.Bool()
+		strict := c.Bool()
+		c.Describe(func() any { return map[string]any{"stall": stall, "etag": etag, "strict": strict, "timeout": "200ms"} })
+		release := make(chan struct{})
+		srv := httptest.NewServer(http.HandlerFunc(func(w http.ResponseWriter, r *http.Request) {
+			body := `{"status":{"v":7},"children":[]}`
+			wait := func() {
+				select {
+				case <-release:
+				case <-r.Context().Done():
+				}
+			}
+			fl, _ := w.(http.Flusher)
+			switch stall {
+			case "before-headers":
+				wait()
+			case "after-headers":
+				w.Header().Set("Content-Length", fmt.Sprint(len(body)))
+				w.WriteHeader(200)
+				if fl != nil {
+					fl.Flush()
+				}
+				wait()
+			case "mid-body":
+				w.Header().Set("Content-Length", fmt.Sprint(len(body)))
+				w.WriteHeader(200)
+				_, _ = w.Write([]byte(body[:10]))
+				if fl != nil {
+					fl.Flush()
+				}
+				wait()
+			}
+			_, _ = w.Write([]byte(body))
+		}))
+		defer srv.Close()
+		defer close(release)
+		c19TimeoutSeq++
+		url := srv.URL + "/sync"
+		wh := &v1alpha1.Webhook{URL: &url, Timeout: &metav1.Duration{Duration: 200 * time.Millisecond}}
+		if etag {
+			on := true
+			ttl := int32(60)
+			wh.Etag = &v1alpha1.WebhookEtagConfig{Enabled: &on, CacheTimeoutSeconds: &ttl, CacheCleanupSeconds: &ttl}
+		}
+		if strict {
+			m := v1alpha1.ResponseUnmarshallModeStrict
+			wh.ResponseUnmarshallMode = &m
+		}
+		ex, err := NewWebhookExecutor(wh, fmt.Sprintf("c19-timeouts-%d-%d", os.Getpid(), c19TimeoutSeq), common.CompositeController, common.SyncHook)
+		if err != nil {
+			return fmt.Errorf("harness: %v", err)
+		}
+		done := make(chan error, 1)
+		var got c19Resp
+		start := time.Now()
+		go func() { done <- ex.Call(c19Parent(), &got) }()
+		select {
+		case err := <-done:
+			if stall == "none" {
+				if err != nil {
+					return vs.Violf("C19/valid-answer-rejected", "a prompt, well-formed 200 failed: %v", err)
+				}
+				return nil
+			}
+			c.NonTrivial()
+			if err == nil {
+				return vs.Violf("C19/timeout-not-enforced", "the hook stalled (%s) beyond the 200ms timeout but the call succeeded after %v", stall, time.Since(start))
+			}
+			return nil
+		case <-time.After(5 * time.Second):
+			return vs.Violf("C19/timeout-not-enforced", "the hook stalled (%s); the webhook timeout is 200ms but the call is still pending after 5s", stall)
+		}
 	})
 }
